@@ -183,6 +183,11 @@ HAND = [
     ('strinit-ok', 'unsigned short a[] = u"ab"; unsigned b[] = U"ab"; unsigned char c[] = "ab"; signed char d[] = "ab"; char e[] = u8"ab"; unsigned char f[] = u8"ab"; const unsigned short g[3] = u"ab";\nint k = sizeof a + sizeof b + sizeof c;\n', {'k': 21}, None),
     ('tag-shadow-bad1', 'struct S { int a; } g; void f(void) { struct S { float a; } *p; p = &g; }\n', 'reject', None),
     ('tag-shadow-bad2', 'struct S { int a; } g; void h(struct S *); void f(void) { struct S { int a; } l; h(&l); }\n', 'reject', None),
+    # a bit-field of a union promotes by its own width, whatever the size of the other members
+    ('union-bitfield-promotion', 'union U2 { long l; unsigned a : 31; unsigned short h : 15; unsigned w : 32; long long q : 33; } u2;\n'
+                                 'int k = _Generic(+u2.a, int: 1, unsigned: 2, default: 0), m = _Generic(+u2.h, int: 1, unsigned: 2, default: 0), n = _Generic(+u2.w, int: 1, unsigned: 2, default: 0),\n'
+                                 '    o = _Generic(u2.a + 0, int: 1, unsigned: 2, default: 0), p = sizeof(+u2.h);\n',
+     {'k': 1, 'm': 1, 'n': 2, 'o': 1, 'p': 4}, None),
     ('decay-qual-bad1', 'struct S { int a[2]; }; const struct S cs; void f(void) { int *p = cs.a; }\n', 'reject', None),
     ('decay-qual-bad2', 'typedef int T[2]; const T ct; void g(int *); void f(void) { g(ct); }\n', 'reject', None),
     ('decay-qual-ok', 'struct S { int a[2]; }; const struct S cs; struct S s; void g(const int *); void f(void) { const int *p = cs.a; int *q = s.a; g(cs.a); g(q); }\nint a = 1;\n', {'a': 1}, None),
